@@ -35,7 +35,7 @@ def budget(tier):
     return {"examples": 9000, "shards": 16}
 
 
-TAGNAMES = ["NM", "AS", "xx", "Xy", "z9", "dv", "rl", "s1", "tp", "cm", "ab"]
+TAGNAMES = ["NM", "AS", "xx", "Xy", "z9", "dv", "rl", "s1", "tp", "cm", "ab", "ds", "cg"]
 
 
 @st.composite
@@ -67,6 +67,8 @@ def full_tags(draw):
         else:
             nm = draw(st.sampled_from(TAGNAMES))
             ty = draw(st.sampled_from("AifZZHB"))
+            if nm in ("ds", "cg") and ty == "Z":
+                ty = "i"  # only ds:Z (dropped) and cg:Z (the CIGAR) are special; ds:i / cg:i are ordinary fields
         out.append("%s:%s:%s" % (nm, ty, draw(tag_value(ty))))
     if draw(st.integers(0, 5)) == 0:
         out.insert(draw(st.integers(0, len(out))), "ds:Z:" + draw(st.sampled_from([":20*at:5+ga", "=ACGT-cc", ":7"])))
